@@ -25,7 +25,9 @@ META = {
         'quick': {'subtype-queries': 1000, 'assoc-lookups-positive': 500, 'assoc-lookups-negative': 500,
                   'assoc-lookups-flipped': 200, 'assoc-lookups-subtype': 100, 'converse-links': 1000,
                   'illformed:unknown-super': 10, 'illformed:unknown-assoc-end': 10, 'illformed:unknown-field': 10,
-                  'illformed:unknown-step': 10, 'ag-edges-checked': 500, 'illformed-through-regenerate': 100},
+                  'illformed:unknown-step': 10, 'ag-edges-checked': 500, 'illformed-through-regenerate': 100,
+                  'illformed:unknown-field-in-variable': 30, 'illformed:unknown-subtype-in-variable': 8, 'illformed:unknown-variable': 30,
+                  'illformed:unknown-subtype': 40, 'repaired-and-regenerated': 400, 'class:same-field-name-at-both-ends': 4},
         'thorough': {'subtype-queries': 100000, 'assoc-lookups-positive': 50000, 'assoc-lookups-negative': 50000,
                      'assoc-lookups-flipped': 20000, 'assoc-lookups-subtype': 10000, 'converse-links': 100000,
                      'illformed:unknown-super': 1000, 'illformed:unknown-assoc-end': 1000,
@@ -159,9 +161,75 @@ def check_structure(lang, lg, res, count=True):
 def gen_illformed(rng, spec):
     """one ill-formed variant of a well-formed spec: (kind, spec) or None"""
     s = copy.deepcopy(spec)
-    kinds = ['unknown-super', 'unknown-assoc-end', 'unknown-field', 'unknown-step', 'removed-asset']
+    kinds = ['unknown-super', 'unknown-assoc-end', 'unknown-field', 'unknown-step', 'removed-asset',
+             'unknown-field-in-variable', 'unknown-subtype-in-variable', 'unknown-variable', 'unknown-subtype']
     rng.shuffle(kinds)
+    parents = {a['name']: a['superAsset'] for a in s['assets']}
+    by_name = {a['name']: a for a in s['assets']}
+
+    def var_refs(e, out):
+        if isinstance(e, dict):
+            if e.get('type') == 'variable':
+                out.append(e)
+            for v in e.values():
+                var_refs(v, out)
+        elif isinstance(e, list):
+            for v in e:
+                var_refs(v, out)
+
+    def subtypes(e, out):
+        if isinstance(e, dict):
+            if e.get('type') == 'subType':
+                out.append(e)
+            for v in e.values():
+                subtypes(v, out)
+        elif isinstance(e, list):
+            for v in e:
+                subtypes(v, out)
+
     for kind in kinds:
+        if kind in ('unknown-field-in-variable', 'unknown-subtype-in-variable', 'unknown-variable'):
+            # a variable that a step of asset type T (directly) uses: its definition visible from T is damaged
+            uses = []
+            for a in s['assets']:
+                for st in a['attackSteps']:
+                    refs = []
+                    var_refs((st['reaches'] or {}).get('stepExpressions', []), refs)
+                    for r in refs:
+                        if (st['reaches'] or {}).get('stepExpressions') and any(r is x or (x.get('type') == 'collect' and x.get('lhs') is r)
+                                                                                     for x in st['reaches']['stepExpressions']):
+                            uses.append((a['name'], r))
+            rng.shuffle(uses)
+            for t, r in uses:
+                if kind == 'unknown-variable':
+                    r['name'] = 'noSuchVariable'
+                    return kind, s
+                x = t
+                d = None
+                while x and d is None:
+                    d = next((v for v in by_name[x]['variables'] if v['name'] == r['name']), None)
+                    x = parents.get(x)
+                if d is None:
+                    continue
+                if kind == 'unknown-field-in-variable' and _first_field(d['stepExpression']) is not None:
+                    _first_field(d['stepExpression'])['name'] = 'noSuchField'
+                    return kind, s
+                if kind == 'unknown-subtype-in-variable':
+                    subs = []
+                    subtypes(d['stepExpression'], subs)
+                    if subs:
+                        subs[0]['subType'] = 'NoSuchAsset'
+                        return kind, s
+            continue
+        if kind == 'unknown-subtype':
+            subs = []
+            for a in s['assets']:
+                for st in a['attackSteps']:
+                    subtypes((st['reaches'] or {}).get('stepExpressions', []), subs)
+            if subs:
+                rng.choice(subs)['subType'] = 'NoSuchAsset'
+                return kind, s
+            continue
         if kind == 'removed-asset':
             # an asset that others extend or that an association ends in disappears from the specification
             used = [a['superAsset'] for a in s['assets'] if a['superAsset']] + [x[k] for x in s['associations'] for k in ('leftAsset', 'rightAsset')]
@@ -254,14 +322,17 @@ def _check_case(case, res, count=True):
                 res.count('illformed-raised')
             continue
         return ('langgraph.illformed:%s-accepted' % kind, 'ill-formed language (%s) was accepted without any error' % kind)
-    for kind, bad in sorted(case.get('illformed', []), key=lambda kb: kb[0] != 'removed-asset')[:1]:
+    lg2 = None
+    for kind, bad in sorted(case.get('illformed', []), key=lambda kb: kb[0] != 'removed-asset'):
         # the same through regenerate_graph(): the graph was built from the well-formed specification, the dict it
-        # holds is then edited into the ill-formed variant
-        given = copy.deepcopy(case['spec'])
-        try:
-            lg2 = LanguageGraph(given)
-        except Exception:
-            break
+        # holds is then edited into the ill-formed variant; afterwards the specification is repaired and the SAME
+        # graph object regenerated: the well-formed language must be accepted again and mirrored correctly
+        if lg2 is None:
+            given = copy.deepcopy(case['spec'])
+            try:
+                lg2 = LanguageGraph(given)
+            except Exception:
+                break
         given.clear()
         given.update(copy.deepcopy(bad))
         if count:
@@ -269,9 +340,22 @@ def _check_case(case, res, count=True):
         try:
             lg2.regenerate_graph()
         except Exception:
-            continue
-        return ('langgraph.illformed:%s-accepted-by-regenerate' % kind,
-                'after the held specification was edited into an ill-formed one (%s) regenerate_graph() reported no error' % kind)
+            pass
+        else:
+            return ('langgraph.illformed:%s-accepted-by-regenerate' % kind,
+                    'after the held specification was edited into an ill-formed one (%s) regenerate_graph() reported no error' % kind)
+        given.clear()
+        given.update(copy.deepcopy(case['spec']))
+        if count:
+            res.count('repaired-and-regenerated')
+        try:
+            lg2.regenerate_graph()
+        except Exception as exc:
+            return ('langgraph.repaired:rejected-after-an-earlier-error',
+                    'the specification was ill-formed (%s, correctly reported), then repaired: regenerate_graph() on the same object raised %r' % (kind, exc))
+        first = check_structure(lang, lg2, res, count=False)
+        if first:
+            return ('langgraph.repaired:' + first[0], 'after an ill-formed specification (%s) was repaired and regenerated: %s' % (kind, first[1]))
     if case.get('amodel') is not None and not lang.same_signature_groups():
         try:
             built = Built(case, attackers=False)
@@ -315,7 +399,7 @@ def run(rng, res, tier, shard, nshards):
             res.count('class:same-field-name-at-both-ends')
         bad = []
         if case['source'] == 'generated':
-            for _ in range(2):
+            for _ in range(rng.choice([2, 2, 5])):
                 v = gen_illformed(rng, case['spec'])
                 if v:
                     bad.append(list(v))
